@@ -43,7 +43,10 @@ fn main() {
                 i += 1;
             }
             util::capture_stdout(None);
-            let code = props::run(&id, tier);
+            let code = match std::panic::catch_unwind(|| props::run(&id, tier)) {
+                Ok(c) => c,
+                Err(_) => util::machinery_error("the harness itself panicked (see the HARNESS PANIC line above); this is never a verdict"),
+            };
             util::cleanup_scratch();
             std::process::exit(code);
         }
